@@ -20,13 +20,12 @@ theorem split_words_res_pinned :
     Tables.pyTypesSplitWordsCapRe = "^[a-z0-9]+|[A-Z][a-z0-9]+|[A-Z]+(?=[A-Z][a-z0-9])|[A-Z]+$"
     ∧ Tables.pyTypesSplitWordsDashRe = "[-_/]+" := by decide
 
-/-- the alias validator is named through `fmt_class`; the enumerated-subtypes mapping (and the class alias, see
-`aliasStmts`) spell their target with the raw name although every reference goes through `fmt_class`: the places
-where the model does not apply `fmtClass`. -/
+/-- the alias definition and the enumerated-subtypes mapping spell their targets through `fmt_class` /
+`class_name_for_data_type`, like every reference to them (they used to print the raw name: repaired) -/
 theorem raw_name_sites_pinned :
     Tables.pyTypesRawNameSites = ["alias_validator:'{}_validator'.format(fmt_class(alias.name))",
-      "subtype_map:'{}._tag_to_subtype_ = '.format(data_type.name)",
-      "subtype_map:'{}._pytype_to_tag_and_subtype_ = '.format(data_type.name)"] := by decide
+      "subtype_map:'{}._tag_to_subtype_ = '.format(class_name_for_data_type(data_type))",
+      "subtype_map:'{}._pytype_to_tag_and_subtype_ = '.format(class_name_for_data_type(data_type))"] := by decide
 
 /-- `_reserved_keywords` -/
 theorem reserved_keywords_pinned :
@@ -256,37 +255,47 @@ theorem alias_order_witness :
   refine ⟨by decide, by decide, by decide, by decide⟩
 
 /-- `alias AS = String` used by a field (regression: it used to be defined as `AS_validator` and referenced as
-`As_validator`; the validator is now defined under the name its users refer to) -/
+`As_validator`) -/
 def aliasNameApi : Api := { namespaces := [
   { name := "n", aliases := [{ name := "AS", ty := .prim }],
     types := [{ isStruct := true, name := "S", fields := [{ name := "f", ty := .alias "n" "AS" }] }] }] }
 
-/-- `alias HTTPUnion = U` with a tag default through the alias: the class alias is still bound as `HTTPUnion` and
-referred to as `HttpUnion` -/
+/-- `alias HTTPUnion = U` with a tag default through the alias, and a struct tree whose root is called `HTTPRoot`
+(regression: class alias and subtype tables used to be spelled with the raw names) -/
 def classAliasNameApi : Api := { namespaces := [
   { name := "n", aliases := [{ name := "HTTPUnion", ty := .user "n" "U" }],
     types := [{ isStruct := false, name := "U", fields := [{ name := "x", ty := .void }] },
               { isStruct := true, name := "S",
-                fields := [{ name := "f", ty := .alias "n" "HTTPUnion", dflt := some (.tag (.alias "n" "HTTPUnion") "x") }] }] }] }
+                fields := [{ name := "f", ty := .alias "n" "HTTPUnion", dflt := some (.tag (.alias "n" "HTTPUnion") "x") }] },
+              { isStruct := true, name := "HTTPRoot", subtypes := [("n", "HTTPLeaf")] },
+              { isStruct := true, name := "HTTPLeaf", parent := some ("n", "HTTPRoot") }] }] }
 
 set_option maxRecDepth 100000 in
-/-- An alias of a primitive may have any name; the hypothesis that the name of an alias ENDING IN A CLASS is a fixed
-point of `fmt_class` is needed. -/
-theorem alias_name_witness :
+/-- Regression examples: names that are not fixed points of `fmt_class` are well-formed and load. -/
+theorem alias_name_regression :
     apiWF aliasNameApi = true ∧ errOf (importFrom (pyModules aliasNameApi) "n") = none
-    ∧ apiWF classAliasNameApi = false
-    ∧ errOf (importFrom (pyModules classAliasNameApi) "n") = some (.nameError "n" ⟨none, "HttpUnion", some "x"⟩) := by
+    ∧ apiWF classAliasNameApi = true ∧ errOf (importFrom (pyModules classAliasNameApi) "n") = none := by
   refine ⟨by decide, by decide, by decide, by decide⟩
 
-/-- a route attribute holding a union tag: `TagRef(...)` is printed into the module -/
+/-- a route attribute holding a union tag of the union `m.U` (the route schema's type), set on a route of `m`
+itself and on a route of a namespace `files` that does not import `m` -/
 def tagRefAttrApi : Api := { namespaces := [
-  { name := "n", routes := [{ name := "r", attrs := [("mode", .tagRef)] }] }] }
+  { name := "m", types := [{ isStruct := false, name := "U", fields := [{ name := "x", ty := .void }, { name := "y", ty := .void }] }],
+    routes := [{ name := "r", attrs := [("mode", .tagRef (.user "m" "U") "y")] }] }] }
+
+def tagRefAttrForeignApi : Api := { namespaces := [
+  { name := "m", types := [{ isStruct := false, name := "U", fields := [{ name := "x", ty := .void }, { name := "y", ty := .void }] }] },
+  { name := "files", routes := [{ name := "r", attrs := [("mode", .tagRef (.user "m" "U") "y")] }] }] }
 
 set_option maxRecDepth 100000 in
-/-- The hypothesis that route attributes are plain literals is needed. -/
+/-- A union-tag route attribute is printed as `[ns.]U.tag` (regression: it used to be printed as `TagRef(...)`);
+the clause of `apiWF` that the union's namespace is imported by the route's namespace is needed: the compiler records
+no import for the type of a route attribute. -/
 theorem route_attr_witness :
-    apiWF tagRefAttrApi = false
-    ∧ errOf (importFrom (pyModules tagRefAttrApi) "n") = some (.nameError "n" ⟨none, "TagRef", none⟩) := by
-  refine ⟨by decide, by decide⟩
+    apiWF tagRefAttrApi = true ∧ errOf (importFrom (pyModules tagRefAttrApi) "m") = none
+    ∧ apiWF tagRefAttrForeignApi = false
+    ∧ errOf (importFrom (pyModules tagRefAttrForeignApi) "files")
+        = some (.nameError "files" ⟨some "m", "U", some "y"⟩) := by
+  refine ⟨by decide, by decide, by decide, by decide⟩
 
 end StoneVerif.C09
